@@ -42,8 +42,6 @@ def _ext_goal(goal):
         return z3.Implies(goal.arg(0), _ext_goal(goal.arg(1)))
     if z3.is_and(goal):
         return z3.And(*[_ext_goal(c) for c in goal.children()])
-    if z3.is_quantifier(goal) and goal.is_forall():
-        return None
     return goal
 
 
